@@ -236,6 +236,10 @@ class Interp:
         return B.make_set(self, [self.ev(x, fr) for x in e.elts])
 
     def ev_Dict(self, e, fr):
+        if all(k is not None for k in e.keys):
+            ks = [self.ev(k, fr) for k in e.keys]
+            if any(is_z3(k) for k in ks):
+                return B.SymDict(list(zip(ks, [self.ev(v, fr) for v in e.values])))
         d = {}
         for k, v in zip(e.keys, e.values):
             if k is None:
